@@ -49,17 +49,45 @@
                                 the mass of "local mechanism" events (so the world only matters through what it forces); the
                                 districts of the counterfactual graph share no noise (c-component factorisation, line 6);
                                 line 9 and the outer Sum are marginalisations; induction over the recursion.
+    * `idstar_sound_oneworld_conflating`   EVERY SINGLE-WORLD EVENT (`OneWorld`: all keys carry one subscript set; values and
+                                subscripts of ANY polarity): the estimand equals P(event) under the CONFLATING reading `cden`, in which
+                                an unstarred subscript `-X` denotes the value the event gives `X`.  So on single-world events the
+                                only thing wrong with ID*'s answers is the polarity of the subscripts line 6 writes (F10/M1, F10/M2).
+    * `idstar_sound_fragment2`  SOUNDNESS ON FRAGMENT 2 (`InFragment2`, decidable by `inFragment2B`; contains fragment 1:
+                                `inFragment_subset`), UNDER THE READING OF THE PROPERTY (`cden2`, Lemmas/CfStarLit.lean: outcome
+                                variables take the event's values, `-X` is the literal `x` unless an enclosing `Sum` binds `X`, `+X`
+                                is the literal `x'`): single-world events of any polarity such that, when line 6 fires, no key with
+                                a starred value is a parent (in `G`) of a non-self-intervened node of the counterfactual graph and no
+                                node of the graph is self-intervened on a starred subscript (`Clean2`).  Measured boundary
+                                (tools/c07_boundary.py, 39 906 in-domain events): on single-world events the real code fails exactly
+                                when one of these two conditions fails (F10/M1 resp. F10/M2) — outside `Clean2` 87% of the events fail.
+    * `idstar_sound_fragment2R` … and on FRAGMENT 2R (`InFragment2R`, decidable by `inFragment2RB`): events with ANY number of worlds
+                                that violate effectiveness, consist of tautologies, or are reduced to fragment 2 by line 3.
+    * `idstar_answers_oneworld` on a single-world event ID* never refuses
+    * `idstar_zero_iff_line2_oneworld`, `idstar_zero_sound_oneworld`, `idstar_never_zero_fragment`
+                                ZERO on single-world events (fragments 1, 2 included): ID* returns Zero IFF the event violates the
+                                axiom of effectiveness (line 2) — then P(event) = 0 in every functional SCM; no other line returns Zero,
+                                no recursive call returns Zero; inside fragment 1 Zero is never returned.
+    * `idstar_zero_origin`, `idstar_zero_sound_partial`
+                                ZERO on EVERY well-formed event: it comes from line 2, from line 5, or from line 6 with a district event
+                                that violates effectiveness (line 2 of a recursive call, depth one); the first two are sound, so Zero is
+                                sound unless it is of the third kind (that is where the open findings of kind 'zero' live).
+    * `idstar_refusal_iff_conflict`, `idstar_refuses_sound`
+                                REFUSALS on every well-formed event (acyclic graph): ID* refuses IFF after lines 1–3 the counterfactual
+                                graph is connected and line 8's conflict test fires; the recursive calls of line 6 never refuse.
     * vocabulary (C06 part): Props/C06Cf.lean
 
-  -- OPEN (stated in full, NOT proved; on the current tree the first one is FALSE outside the fragment — F10, see known_findings.jsonl):
+  -- OPEN (stated in full, NOT proved; on the current tree the first one is FALSE outside fragment 2R — F10, see known_findings.jsonl):
   --   theorem idstar_sound : idStar ordf dordf G ev = .ok e → e ≠ .zero → M.Compatible G → EventWF M ev → ν.Distinct →
-  --       den M ν ev e = probEvent M ν ev
-  --     (`den` = the reading of the property: a free outcome variable `V` of a leaf takes the event's value of `V`, a subscript
-  --      `+X` is `ν X true`, a subscript `-X` is the value bound by an enclosing `Sum[X]`, else `ν X false`)
+  --       cden2 M ν dom e (values of the event) (fun n => ν n false) = probEvent M ν ev
+  --     proved on fragments 1, 2, 2R.  FALSE of the code: (a) single-world events outside `Clean2` (F10/M1, M2: the estimand is
+  --     right only under the conflating reading, `idstar_sound_oneworld_conflating`); (b) events that are still multi-world after
+  --     line 3 (F10/M3a, M3b, D1, D2 and M1/M2 again): 13% of the thorough stream, about 40% of them wrong
   --   theorem idstar_zero_sound : idStar ordf dordf G ev = .ok .zero → M.Compatible G → EventWF M ev → ν.Distinct →
   --       probEvent M ν ev = 0
-  --     proved for Zero coming from line 2 (`idstar_zero_line2_sound_partial`) and from line 5 (`idstar_zero_line5_sound`, by
-  --     C18's `cg_prob`); Zero from a factor of line 6 is open (and false today: F10/M5)
+  --     proved for single-world events (`idstar_zero_sound_oneworld`) and, for every event, for Zero from lines 2 and 5
+  --     (`idstar_zero_sound_partial`); Zero from line 2 of a recursive call on a district event (multi-world top events only) is
+  --     open and false today (F10: keys ["zero", "line6", …])
 -/
 import Y0.Model.IdStar
 import Y0.Lemmas.CfFscm
